@@ -212,8 +212,15 @@ func c14Palette(c *Ctx, r *Report) {
 			}
 		}
 		r.Check(good, rule2, fdName(p, fd), exprStr(call), c.Pos(call.Pos()), "flow: unit argument is directly a Scaler.Scale result", "the [0,1] argument of "+f.Name()+" is not a Scaler.Scale result: an unscaled value indexes past the palette / overdraws the bar")
+		// proportionality: what a renderer draws for a data value is that value put through the scaler.
+		// A literal magnitude is in range, but it places the cell without regard to min/max (a 0 cell
+		// below negative cells, an "empty" cell at the bottom of a log scale).
+		if v, isC := p.TypesInfo.Types[arg]; good && p.PkgPath != termunicodePkg {
+			r.Check(!(isC && v.Value != nil), "C14-f/scaled-magnitude", fdName(p, fd), exprStr(call), c.Pos(call.Pos()), "flow: the magnitude drawn is the scaler's value for the cell", "a renderer draws a cell with the fixed magnitude "+exprStr(arg)+" instead of the scaled value of the cell: drawn height / shade is no longer monotone in the value (with a negative minimum a 0 cell is drawn below negative cells)")
+		}
 	})
 	r.Floor(rule2, 5, "HeatWrite x2, SparkWrite, BarWrite x2")
+	r.Floor("C14-f/scaled-magnitude", 5, "HeatWrite x2, SparkWrite, BarWrite x2")
 }
 
 // c14Scale: inside Scaler.Scale every return is a constant in [0,1] or is
